@@ -3,6 +3,7 @@ package main
 import (
 	"context"
 	"io"
+	"sync/atomic"
 	"time"
 
 	theine "github.com/Yiling-J/theine-go"
@@ -21,7 +22,14 @@ type anyCache struct {
 	hlc  *theine.HybridLoadingCache[int, int64]
 	sec  *monSecondary[int, int64]
 	workers int
+	route   string // which builder route made it
 }
+
+// The builder offers two routes to a loading cache (Loading(l).Build() and BuildWithLoader(l)) and two to a hybrid
+// loading cache (Hybrid(s).Loading(l).Build() and Loading(l).Hybrid(s).Build(), the latter with the default workers
+// and admission probability). Every second eligible construction takes the other route, so that an option lost on
+// one route (each copies the options on its own) is seen by whatever monitor uses the cache.
+var anyRouteToggle atomic.Int64
 
 type anyOpts struct {
 	MaxSize  int64
@@ -65,7 +73,13 @@ func newAnyCache(kind string, o anyOpts) (*anyCache, error) {
 	case "plain":
 		a.c, err = b.Build()
 	case "loading":
-		a.lc, err = b.Loading(loader).Build()
+		if anyRouteToggle.Add(1)%2 == 0 {
+			a.route = "BuildWithLoader"
+			a.lc, err = b.BuildWithLoader(loader)
+		} else {
+			a.route = "Loading.Build"
+			a.lc, err = b.Loading(loader).Build()
+		}
 	case "hybrid":
 		a.sec = newMonSecondary[int, int64](o.KeepLog)
 		hb := b.Hybrid(a.sec).Workers(workers)
@@ -75,6 +89,12 @@ func newAnyCache(kind string, o anyOpts) (*anyCache, error) {
 		a.hc, err = hb.Build()
 	case "hybrid-loading":
 		a.sec = newMonSecondary[int, int64](o.KeepLog)
+		if workers == 2 && (!o.ProbSet || o.Prob == 1) && anyRouteToggle.Add(1)%2 == 0 {
+			a.route = "Loading.Hybrid.Build"
+			a.hlc, err = b.Loading(loader).Hybrid(a.sec).Build()
+			break
+		}
+		a.route = "Hybrid.Loading.Build"
 		hb := b.Hybrid(a.sec).Workers(workers)
 		if o.ProbSet {
 			hb = hb.AdmProbability(o.Prob)
